@@ -21,6 +21,8 @@ NANCODE = -99999
 BIGFILL = -88888
 NOFILL = -77777
 TOL = 1e-9  # rad, nearest lattice point
+AREA_SCALE = 4096.0  # abstract tag -> stored area (exactly representable)
+DIST_SCALE = 1024.0  # abstract tag -> stored edge length
 
 
 # ----------------------------------------------------------------------------- TLC output -> python
@@ -239,7 +241,12 @@ def _mpas_ds(case, mesh):
             u = units(mesh["nodes"])
             for k, n in enumerate(["xCell", "yCell", "zCell"]):
                 ds[n] = xr.DataArray(u[:, k].copy(), dims=["nCells"])
-        vlon, vlat = radians_0_2pi(mesh["centres"])
+        vdirs = mesh["centres"]
+        if len(vdirs) != len(src["cellsOnVertex"]):
+            # regional file: also vertices some of whose cells are absent; place them amid their present cells
+            U = units(mesh["nodes"])
+            vdirs = [tuple(np.sum([U[c - 1] for c in row if c != 0], axis=0)) for row in src["cellsOnVertex"]]
+        vlon, vlat = radians_0_2pi(vdirs)
         ds["lonVertex"] = xr.DataArray(vlon, dims=["nVertices"])
         ds["latVertex"] = xr.DataArray(vlat, dims=["nVertices"])
     ds["verticesOnCell"] = xr.DataArray(np.array(src["verticesOnCell"], dtype=i32), dims=["nCells", "maxEdges"])
@@ -247,8 +254,16 @@ def _mpas_ds(case, mesh):
     ds["cellsOnVertex"] = xr.DataArray(np.array(src["cellsOnVertex"], dtype=i32), dims=["nVertices", "vertexDegree"])
     if src.get("verticesOnEdge"):
         ds["verticesOnEdge"] = xr.DataArray(np.array(src["verticesOnEdge"], dtype=i32), dims=["nEdges", "TWO"])
-        ds["edgesOnCell"] = xr.DataArray(np.array(src["edgesOnCell"], dtype=i32), dims=["nCells", "maxEdges"])
         ds["cellsOnEdge"] = xr.DataArray(np.array(src["cellsOnEdge"], dtype=i32), dims=["nEdges", "TWO"])
+        if dual:
+            ds["edgesOnVertex"] = xr.DataArray(np.array(src["edgesOnVertex"], dtype=i32), dims=["nVertices", "vertexDegree"])
+            ds["areaTriangle"] = xr.DataArray(np.array(src["areaTriangle"], dtype=float) / AREA_SCALE, dims=["nVertices"])
+        else:
+            ds["edgesOnCell"] = xr.DataArray(np.array(src["edgesOnCell"], dtype=i32), dims=["nCells", "maxEdges"])
+            ds["areaCell"] = xr.DataArray(np.array(src["areaCell"], dtype=float) / AREA_SCALE, dims=["nCells"])
+        ds["dvEdge"] = xr.DataArray(np.array(src["dvEdge"], dtype=float) / DIST_SCALE, dims=["nEdges"])
+        ds["dcEdge"] = xr.DataArray(np.array(src["dcEdge"], dtype=float) / DIST_SCALE, dims=["nEdges"])
+        ds.attrs["sphere_radius"] = 1.0
     ds.attrs["on_a_sphere"] = "YES"
     return ds
 
@@ -260,12 +275,15 @@ def _scrip_ds(case, mesh):
     lon, lat = lonlat(mesh["nodes"], src["lon"])
     c = np.array(src["corners"], dtype=np.int64)
     clon, clat = lonlat(mesh["centres"], src["lon"])
+    un = src["units"]
+    if un == "radians":
+        lon, lat, clon, clat = np.radians(lon), np.radians(lat), np.radians(clon), np.radians(clat)
     ds = xr.Dataset()
-    ds["grid_corner_lon"] = xr.DataArray(lon[c], dims=["grid_size", "grid_corners"], attrs={"units": "degrees"})
-    ds["grid_corner_lat"] = xr.DataArray(lat[c], dims=["grid_size", "grid_corners"], attrs={"units": "degrees"})
-    ds["grid_center_lon"] = xr.DataArray(clon, dims=["grid_size"], attrs={"units": "degrees"})
-    ds["grid_center_lat"] = xr.DataArray(clat, dims=["grid_size"], attrs={"units": "degrees"})
-    ds["grid_area"] = xr.DataArray(np.full(len(c), 0.01), dims=["grid_size"], attrs={"units": "radians^2"})
+    ds["grid_corner_lon"] = xr.DataArray(lon[c], dims=["grid_size", "grid_corners"], attrs={"units": un})
+    ds["grid_corner_lat"] = xr.DataArray(lat[c], dims=["grid_size", "grid_corners"], attrs={"units": un})
+    ds["grid_center_lon"] = xr.DataArray(clon, dims=["grid_size"], attrs={"units": un})
+    ds["grid_center_lat"] = xr.DataArray(clat, dims=["grid_size"], attrs={"units": un})
+    ds["grid_area"] = xr.DataArray(np.array(src["grid_area"], dtype=float) / AREA_SCALE, dims=["grid_size"], attrs={"units": "radians^2"})
     ds["grid_imask"] = xr.DataArray(np.ones(len(c), dtype=np.int32), dims=["grid_size"])
     ds["grid_dims"] = xr.DataArray(np.array([len(c)], dtype=np.int32), dims=["grid_rank"])
     return ds
@@ -308,6 +326,7 @@ def _esmf_ds(case, mesh, disk=False):
     if src["centres"]:
         clon, clat = lonlat(mesh["centres"], src["lon"])
         ds["centerCoords"] = xr.DataArray(np.stack([clon, clat], axis=1), dims=["elementCount", "coordDim"], attrs={"units": "degrees"})
+        ds["elementArea"] = xr.DataArray(np.array(src["elementArea"], dtype=float) / AREA_SCALE, dims=["elementCount"], attrs={"units": "radians^2"})
     ds.attrs["gridType"] = "unstructured mesh"
     return ds
 
@@ -430,22 +449,37 @@ def _verts_input(case, mesh):
     return arr
 
 
+def _boxed(a, box):
+    if box == "list":
+        return a.tolist()
+    if box == "tuple":
+        return tuple(tuple(r) if isinstance(r, list) else r for r in a.tolist())
+    if box == "readonly":
+        a = a.copy()
+        a.setflags(write=False)
+        return a
+    return a
+
+
 def _topology_kwargs(case, mesh):
     _, FILL = hux.consts()
     src = case["src"]
+    box = src.get("box", "ndarray")
     lon, lat = lonlat(mesh["nodes"], "pm180")
     fv = None if src["fill_value"] == NOFILL else (FILL if src["fill_value"] == BIGFILL else src["fill_value"])
     kw = dict(
-        node_lon=lon,
-        node_lat=lat,
-        face_node_connectivity=_table(src["face_node"], src["dtype"]),
+        node_lon=_boxed(lon, box),
+        node_lat=_boxed(lat, box),
+        face_node_connectivity=_boxed(_table(src["face_node"], src["dtype"]), box),
         fill_value=fv,
         start_index=src["start_index"],
     )
     if src["edge_node"]:
-        kw["edge_node_connectivity"] = _table(src["edge_node"], src["dtype"])
+        kw["edge_node_connectivity"] = _boxed(_table(src["edge_node"], src["dtype"]), box)
         if src["face_edge"]:
-            kw["face_edge_connectivity"] = _table(src["face_edge"], src["dtype"])
+            kw["face_edge_connectivity"] = _boxed(_table(src["face_edge"], src["dtype"]), box)
+    if src.get("dims_dict"):
+        kw["dims_dict"] = {"nVertices": "n_node", "nCells": "n_face", "maxEdges": "n_max_face_nodes"}
     return kw
 
 
@@ -522,22 +556,24 @@ def open_case(case, mesh, work, disk):
 def nearest_ids(lon, lat, dirs):
     """Lattice id of every (lon, lat) in degrees by nearest match within TOL rad; -2 if none.
     Positions compare as directions, so a pole matches whatever its longitude."""
-    lon = np.asarray(lon, dtype=float)
-    lat = np.asarray(lat, dtype=float)
-    out = []
-    U = [lattice.unit(v) for v in dirs]
-    for lo, la in zip(lon.tolist(), lat.tolist()):
-        if not (math.isfinite(lo) and math.isfinite(la)):
-            out.append(-2)
-            continue
-        p = lattice.xyz_of_lonlat_deg(lo, la)
-        best, bid = None, -2
-        for k, u in enumerate(U):
-            a = lattice.ang_between(p, u)
-            if best is None or a < best:
-                best, bid = a, k
-        out.append(bid if best is not None and best <= TOL else -2)
-    return out
+    lon = np.asarray(lon, dtype=float).ravel()
+    lat = np.asarray(lat, dtype=float).ravel()
+    U = np.array([lattice.unit(v) for v in dirs], dtype=float)
+    ok = np.isfinite(lon) & np.isfinite(lat)
+    lo, la = np.radians(np.where(ok, lon, 0.0)), np.radians(np.where(ok, lat, 0.0))
+    P = np.stack([np.cos(la) * np.cos(lo), np.cos(la) * np.sin(lo), np.sin(la)], axis=1)
+    if len(P) == 0:
+        return []
+    best = np.argmax(P @ U.T, axis=1)
+    chord = np.linalg.norm(P - U[best], axis=1)  # exact near 0, unlike acos of the dot product
+    good = ok & (chord <= 2.0 * math.sin(TOL / 2.0))
+    return [int(b) if g else -2 for b, g in zip(best, good)]
+
+
+def _tags(values, scale):
+    """Carried quantities back to their abstract tags (value * scale is an exact integer), else -1."""
+    a = np.asarray(values, dtype=float).ravel() * scale
+    return [int(x) if math.isfinite(x) and float(x).is_integer() and abs(x) < 2**30 else -1 for x in a.tolist()]
 
 
 def _range_ok(a, lo, hi):
@@ -577,6 +613,11 @@ def project(g, case, mesh):
             if case["carry_exact"] and names[k] not in g._ds:
                 continue
             got[k], dt[k], fl[k] = hux.table(getattr(g, names[k]))
+    for k, name, scale in (("face_areas", "face_areas", AREA_SCALE), ("edge_node_dist", "edge_node_distances", DIST_SCALE),
+                           ("edge_face_dist", "edge_face_distances", DIST_SCALE)):
+        # carried over = present in what the reader produced (the properties would derive a value otherwise)
+        if k in car and name in g._ds:
+            got[k] = _tags(g._ds[name].values, scale)
     if "npf" in car:
         if "n_nodes_per_face" in g._ds:
             got["npf"] = [int(x) for x in np.asarray(g.n_nodes_per_face.values)]
@@ -597,6 +638,7 @@ def run_case(arg):
         "keeps_ids": case["keeps_ids"],
         "carried": case["carried"],
         "carry_exact": case["carry_exact"],
+        "complete": case["complete"],
         "nn": case["nn"],
         "disk": bool(disk),
     }
